@@ -113,6 +113,19 @@ CLAIMED = {
          'that those logs occur only under update_manifest() = true, and that the write side has a sibling rule check with Err exits.'),
    note='Undecided: that bound content is unchanged (follows C01 undecided part). Trusted base: ' + TRUSTED,
    design='5/C21'),
+ 'C36': dict(
+   technique='loop-iteration reachability (rejection log never followed by the Ok return) + guarded-effect dominance + must-pass-through + decision-table agreement',
+   text=('Decides that verify_time_stamp returns a token only in an iteration with no timeStamp.* rejection logged, that timeStamp.validated and the Ok return need the message-imprint comparison on the data argument to be true, '
+         'that the CMS signature validation lies on every path to Ok, that timeStamp.trusted needs the trust check when verify_trust is set, that validate_cose_tst_info feeds the bytes of the same sign1, '
+         'and that the deciding conditions of every status log (incl. the certificate-validity branch used for expired certificates) agree with the reviewed decision table.'),
+   note='Undecided: CMS/ASN.1 correctness. The decision table is a reference-through-time rule: an intended change of conditions needs the table regenerated (VERIF_REGEN_TABLES=1) after review. Trusted base: ' + TRUSTED,
+   design='5/C36'),
+ 'C37': dict(
+   technique='failing-edge obligation on the revoked-status test + result-discipline along the propagation chain + guarded-effect dominance + DNF of the certId matcher + decision-table agreement',
+   text=('Decides that a revoked status reaches only an Err that is propagated to the reader entry point, that revoked/notRevoked status logs are dominated by cert_id_matches_signer = true on the response under evaluation, '
+         'that the matcher requires serial AND issuer-name hash AND issuer-key hash, that the chain comes from the same sign1, and that the deciding conditions of the OCSP status logs agree with the reviewed table.'),
+   note='Undecided: OCSP signature/validity evaluation. Decision table is reference-through-time (see C36). Trusted base: ' + TRUSTED,
+   design='5/C37'),
 }
 
 NA_REASONS = {
